@@ -143,6 +143,9 @@ func c14Build(r *c14Rule, ext map[int]*c14Extract) (info *ActionPluginStaticInfo
 			return nil, fmt.Errorf("ctor: %w", err)
 		}
 		info.DoIfChecker = chk
+		if e := ext[r.ID]; e != nil { // match_mode / match_invert of the action, as fd extracted them
+			info.MatchMode, info.MatchInvert = MatchMode(e.Mode), e.Invert
+		}
 	case "mf":
 		e := ext[r.ID]
 		if e == nil {
@@ -375,9 +378,7 @@ func TestVerifC14(t *testing.T) {
 		if err := json.Unmarshal(esc.Bytes(), e); err != nil {
 			t.Fatalf("bad extract line: %v", err)
 		}
-		if e.Kind == "mf" {
-			ext[e.ID] = e
-		}
+		ext[e.ID] = e
 	}
 	ef.Close()
 
